@@ -140,7 +140,7 @@ def find_rule(run, model, rule="C18.find"):
 
 def register(run, model, rule="C18.register"):
     hook = model.func("_metaclass._register_for_hypothesis")
-    for fi in model.methods("_metaclass", "DBCMeta"):
+    for fi in model.methods("_metaclass", "DBCMeta", live_only=(run.tier != "thorough")):
         if fi.name != "__new__":
             continue
         flow = get_flow(model, fi)
